@@ -200,6 +200,26 @@ func skolemSums(t *Term, sk []*Term) []*Term {
 	return out
 }
 
+func frameConsts(t *Term) []*Term {
+	var out []*Term
+	seen := map[int]bool{}
+	var walk func(t *Term)
+	walk = func(t *Term) {
+		if seen[t.id] {
+			return
+		}
+		seen[t.id] = true
+		if t.kind == 'v' && len(t.op) > 8 && t.op[:8] == "frame_r!" {
+			out = append(out, t)
+		}
+		for _, a := range t.args {
+			walk(a)
+		}
+	}
+	walk(t)
+	return out
+}
+
 // prepareQuery skolemises the goal and returns extra hypothesis instances.
 func prepareQuery(pc, goal *Term, hints []*Term) (newGoal *Term, newPC *Term, extra *Term) {
 	var sk []*Term
@@ -209,6 +229,8 @@ func prepareQuery(pc, goal *Term, hints []*Term) (newGoal *Term, newPC *Term, ex
 		goal = goal.args[1]
 	}
 	g := skolemize(goal, true, &sk)
+	// the arbitrary object of a frame obligation is a skolem constant too
+	sk = append(sk, frameConsts(goal)...)
 	for g.kind == 'a' && g.op == "=>" {
 		pc = And(pc, g.args[0])
 		g = g.args[1]
